@@ -122,7 +122,7 @@ def run(ctx):
     prog, K, E = ctx.prog, ctx.kinds, ctx.effects
     R1 = chk.rule('C14.R1', 'iterable parameters are consumed at most once before being materialised', 2)
     R2 = chk.rule('C14.R2', 'import: compress / do_fsync / no_holes flags forwarded unchanged, do_commit=False at every add call, one final commit', 5)
-    R3 = chk.rule('C14.R3', 'import branch table: same hash => only keys missing in the destination; different hash => no_holes + read twice', 2)
+    R3 = chk.rule('C14.R3', 'import branch table: same hash => only keys missing in the destination (loose or packed); different hash => no_holes + read twice', 3)
     R4 = chk.rule('C14.R4', 'old/new key lists grow in lockstep; cache reset with every flush; final flush after the loop', 4)
     fn = prog.fn(IMPORT)
     pol = Policy(depth=0)
@@ -217,6 +217,29 @@ def run(ctx):
             okf = False
     args = filt.iter.args
     left_ok = len(args) >= 2 and isinstance(args[0], ast.Name)
+    # the right-hand side (what the destination already holds) must cover BOTH storage forms: loose listing and index
+    def expand(e, depth=0):
+        out = [e]
+        if depth > 5 or e is None:
+            return out
+        for x in ast.walk(e):
+            if isinstance(x, ast.Name) and x.id not in fn.params:
+                from ..effects import last_assignment
+                v = last_assignment(x.id, fn, filt.lineno)
+                if v is not None and v is not e:
+                    out += expand(v, depth + 1)
+        return out
+    rhs_txt = ' '.join(norm(x) for x in expand(args[1])) if len(args) >= 2 else ''
+    has_loose = '_list_loose()' in rhs_txt
+    has_index = 'ORDER BY hashkey' in rhs_txt or 'order_by(Obj.hashkey' in rhs_txt
+    lhs_txt = ' '.join(norm(x) for x in expand(args[0])) if args else ''
+    if has_loose and has_index and 'merge_sorted' in rhs_txt:
+        chk.ok(R3, IMPORT, 'existing keys = merge_sorted(sorted loose listing, index ORDER BY hashkey)', detail='both storage forms of the destination are consulted')
+    else:
+        chk.bad(R3, IMPORT, norm(filt.iter)[:100], f'the set of keys the destination already holds does not cover both storage forms (loose listing: {has_loose}, index scan: {has_index}): '
+                'objects it already holds would be written again', where=f'{fn.module.relpath}:{filt.lineno}')
+    if not ('sorted(' in lhs_txt and 'set(' in lhs_txt):
+        chk.bad(R3, IMPORT, norm(args[0]) if args else '?', 'the requested keys are not de-duplicated and sorted before the merge (detect_where_sorted needs sorted unique input)', where=f'{fn.module.relpath}:{filt.lineno}')
     if okf and left_ok:
         chk.ok(R3, IMPORT, norm(filt.iter)[:100], detail='only Location.LEFTONLY keys (requested, not in the destination) are transferred')
     else:
